@@ -95,6 +95,18 @@ def generate():
     finally:
         if os.path.exists(exe7):
             os.unlink(exe7)
+    # whole documents through the serializers and the filter
+    exe8 = os.path.join(CACHE, "dump_docs.%d" % os.getpid())
+    try:
+        subprocess.run(["g++", "-std=gnu++17", "-O0", "-I" + REPO + "/src", os.path.join(ROOT, "harness", "dump_docs.cpp"), "-o", exe8],
+                       check=True, stdout=subprocess.PIPE, stderr=subprocess.PIPE, text=True)
+        docrows = {}
+        for line in run([exe8]).splitlines():
+            k, _, v = line.partition(" ")
+            docrows[k] = v.split()
+    finally:
+        if os.path.exists(exe8):
+            os.unlink(exe8)
     vals = {}
     for line in dump.splitlines():
         k, _, v = line.partition(" ")
@@ -160,6 +172,11 @@ def generate():
     L.append("/-- a ? b for every ordered pair of the 18 values of harness/dump_cmp.cpp: (index of a, index of b, [==, !=, <, <=, >, >=]) -/")
     L.append("def cmp_rows : List (Nat × Nat × List Bool) := [%s]" % ", ".join(
         "(%s, %s, [%s])" % (e.split(":")[0], e.split(":")[1], ", ".join("true" if c == "1" else "false" for c in e.split(":")[2])) for e in cmp_rows))
+    L.append("/-- (JSON text, serializeJson, serializeJsonPretty, serializeMsgPack) of the document the text denotes -/")
+    L.append("def doc_rows : List (List Nat × List Nat × List Nat × List Nat) := [%s]" % ", ".join("(%s)" % ", ".join(hexl(x) for x in e.split(":")) for e in docrows["doc_rows"]))
+    L.append("/-- (filter text, input text, code 0 = Ok, serializeJson of the filtered document) -/")
+    L.append("def filter_rows : List (List Nat × List Nat × Nat × List Nat) := [%s]" % ", ".join(
+        "(%s, %s, %s, %s)" % (hexl(e.split(":")[0]), hexl(e.split(":")[1]), e.split(":")[2], hexl(e.split(":")[3])) for e in docrows["filter_rows"]))
     for k in sorted(jsonfirst):
         L.append("/-- deserializeJson on a first byte and a fixed tail (alone: nothing; elem: `1]`; key: `\":1}x`), nesting limit 10; plain = default build, ext = comments, NaN and Infinity enabled: (first byte, code, bytes consumed, serializeJson of the document left) -/")
         L.append("def %s : List (Nat × Nat × Nat × List Nat) := [%s]" % (k, ", ".join(mprow(e) for e in jsonfirst[k])))
